@@ -15,9 +15,16 @@ import (
 	"verif/harness/run"
 )
 
+var c14Big = []string{"2147483647", "2147483648", "4294967295", "4294967296", "9007199254740992", "9007199254740993", "4611686018427387904", "9223372036854775807", "9223372036854775808", "9223372036854775809", "18446744073709551615", "-2147483648", "-2147483649", "-9223372036854775808"}
+
 // c14Num draws a number that every carrier family can hold exactly: a small
-// integer, or a dyadic fraction with few bits.
-func c14Num(t *rapid.T) *big.Rat {
+// integer, or a dyadic fraction with few bits; with big set (templates that do
+// no arithmetic) also integers at the limits of the Go integer kinds.
+func c14Num(t *rapid.T, big_ bool) *big.Rat {
+	if big_ && rapid.IntRange(0, 3).Draw(t, "bigkind") == 0 {
+		r, _ := new(big.Rat).SetString(gen.Pick(t, "big", c14Big))
+		return r
+	}
 	switch rapid.IntRange(0, 9).Draw(t, "numkind") {
 	case 0:
 		return big.NewRat(int64(rapid.IntRange(-5, 5).Draw(t, "i")), 2) // halves
@@ -33,13 +40,19 @@ func c14Num(t *rapid.T) *big.Rat {
 func carrierFor(t *rapid.T, r *big.Rat) run.Node {
 	var opts []run.Node
 	txt := jv.RatText(r)
-	opts = append(opts, run.Node{T: "json.Number", S: txt}, run.Node{T: "decimal", S: txt}, run.Node{T: "float64", S: txt})
-	f, exact := r.Float32()
-	_ = f
-	if exact {
+	opts = append(opts, run.Node{T: "json.Number", S: txt}, run.Node{T: "decimal", S: txt})
+	if _, exact := r.Float64(); exact {
+		opts = append(opts, run.Node{T: "float64", S: txt})
+	}
+	if _, exact := r.Float32(); exact {
 		opts = append(opts, run.Node{T: "float32", S: txt})
 	}
-	if r.IsInt() {
+	if r.IsInt() && !r.Num().IsInt64() {
+		// beyond int64: only the unsigned 64-bit kinds remain
+		if r.Num().IsUint64() {
+			opts = append(opts, run.Node{T: "uint", S: txt}, run.Node{T: "uint64", S: txt}, run.Node{T: "json.Number", S: txt + ".0"})
+		}
+	} else if r.IsInt() {
 		i := r.Num().Int64()
 		is := strconv.FormatInt(i, 10)
 		opts = append(opts, run.Node{T: "json.Number", S: is + ".0"}, run.Node{T: "json.Number", S: is + "e0"}, run.Node{T: "int", S: is}, run.Node{T: "int64", S: is}, run.Node{T: "decimal", S: is + ".00"})
@@ -56,7 +69,10 @@ func carrierFor(t *rapid.T, r *big.Rat) run.Node {
 			opts = append(opts, run.Node{T: "int32", S: is})
 		}
 		if i >= 0 {
-			opts = append(opts, run.Node{T: "uint", S: is}, run.Node{T: "uint64", S: is}, run.Node{T: "uint32", S: is})
+			opts = append(opts, run.Node{T: "uint", S: is}, run.Node{T: "uint64", S: is})
+			if i < 1<<32 {
+				opts = append(opts, run.Node{T: "uint32", S: is})
+			}
 			if i <= 255 {
 				opts = append(opts, run.Node{T: "uint8", S: is})
 			}
@@ -155,11 +171,18 @@ func c14Expr(t *rapid.T) (ast.Expr, string) {
 	return tm.e, tm.name
 }
 
+// c14NoArith: templates whose evaluation computes no new number (so values at
+// the limits of the integer kinds stay exactly representable everywhere).
+var c14NoArith = map[string]bool{"compare": true, "compare-literal": true, "filter-compare": true, "contains": true, "equal-arrays": true, "equal-objects": true, "sort": true, "sort_by": true,
+	"max": true, "min": true, "max_by": true, "min_by": true, "truthy-and": true, "truthy-not": true, "truthy-filter": true, "type": true, "type-map": true, "to_number": true, "not_null": true,
+	"multiselect": true, "group_by-type": true, "zip": true, "reverse": true, "flatten-filter": true, "or-default": true, "plus": true}
+
 // C14: results do not depend on which Go type carries a number.
 func TestC14_Carriers(t *testing.T) {
 	c := collector("C14", "carriers")
 	rapid.Check(t, func(t *rapid.T) {
-		num := func() jv.Val { return jv.VRat(c14Num(t)) }
+		e, name := c14Expr(t)
+		num := func() jv.Val { return jv.VRat(c14Num(t, c14NoArith[name])) }
 		nums := func() []jv.Val {
 			k := rapid.IntRange(0, 5).Draw(t, "len")
 			a := make([]jv.Val, k)
@@ -177,7 +200,6 @@ func TestC14_Carriers(t *testing.T) {
 		zero := gen.Pick(t, "z", []jv.Val{jv.VNull(), jv.VInt(0), jv.VBool(false)})
 		doc := jv.VObj([]jv.Member{{K: "x", V: num()}, {K: "y", V: num()}, {K: "z", V: zero}, {K: "n", V: jv.VArr(n)}, {K: "m", V: jv.VArr(n)}, {K: "nn", V: jv.VArr([]jv.Val{jv.VArr(n), num(), jv.VArr(nums())})},
 			{K: "r", V: jv.VArr(recs)}, {K: "o", V: o}, {K: "p", V: o}, {K: "s", V: jv.VStr("a,b,a,,a")}})
-		e, name := c14Expr(t)
 		text := ast.RenderWith(e, gen.Chooser{T: t})
 		c.Case()
 		kinds := map[string]bool{}
